@@ -93,11 +93,23 @@ impl DcpsDomainParticipant {
             TopicKind::NoKey => USER_DEFINED_READER_NO_KEY,
             TopicKind::WithKey => USER_DEFINED_READER_WITH_KEY,
         };
+        let Some(reader_key) = (0..=u16::MAX)
+            .map(|i| self.reader_counter.wrapping_add(i))
+            .find(|key| {
+                !subscriber
+                    .data_reader_list
+                    .iter()
+                    .any(|r| [r.instance_handle[13], r.instance_handle[14]] == key.to_ne_bytes())
+            })
+        else {
+            return Err(DdsError::OutOfResources);
+        };
+        self.reader_counter = reader_key.wrapping_add(1);
         let entity_id = EntityId::new(
             [
                 subscriber.instance_handle[12],
-                self.reader_counter.to_ne_bytes()[0],
-                self.reader_counter.to_ne_bytes()[1],
+                reader_key.to_ne_bytes()[0],
+                reader_key.to_ne_bytes()[1],
             ],
             entity_kind,
         );
@@ -119,7 +131,6 @@ impl DcpsDomainParticipant {
             entity_id.entity_key()[2],
             entity_id.entity_kind(),
         ]);
-        self.reader_counter += 1;
         let reliablity_kind = match qos.reliability.kind {
             ReliabilityQosPolicyKind::BestEffort => ReliabilityKind::BestEffort,
             ReliabilityQosPolicyKind::Reliable => ReliabilityKind::Reliable,
